@@ -46,7 +46,7 @@ class Kv:
         kind = c["kind"]
         if c.get("threw"):
             return state
-        if kind in ("set", "batch"):
+        if kind in ("set", "batch", "set-oversize"):   # set-oversize: refused (threw) -> handled above; accepted -> a set
             for k, v in zip(c["keys"], c["vals"]):
                 state[k] = (v["n"], v["h"], None)
         elif kind in ("setttl", "batchttl"):
@@ -76,7 +76,7 @@ class Kv:
     @staticmethod
     def touched(state, c):
         kind = c["kind"]
-        if kind in ("set", "setttl", "batch", "batchttl", "remove", "expireat", "persist"):
+        if kind in ("set", "setttl", "batch", "batchttl", "remove", "expireat", "persist", "set-oversize"):
             return set(c["keys"])
         if kind == "rmprefix":
             return {k for k in state if k.startswith(c["keys"][0])}
@@ -125,7 +125,17 @@ def fmt_entry(e):
     return f"value(n={e[0]},h={e[1]})" + ("" if e[2] is None else f"+expiry~{e[2][0]}")
 
 
+def keylen(kenc):
+    """keys are hex, or <hex of first 8 bytes>~<len>~<fnv64> for keys longer than 256 bytes"""
+    if "~" in kenc:
+        return int(kenc.split("~")[1])
+    return len(kenc) // 2
+
+
 def keyname(khex):
+    if "~" in khex:
+        head, n, h = khex.split("~")
+        return repr(bytes.fromhex(head).decode("latin1")) + f"...({n} bytes)"
     b = bytes.fromhex(khex)
     s = b.decode("latin1")
     if len(s) > 24:
@@ -274,6 +284,7 @@ class Judge:
         self.images = 0
         self.viol_count = {}
         self.samples = 0
+        self._memo = {}
         self.l1 = {}                   # (k,b) -> lineage info of the most recent level-1 image (level-2 lines follow it)
         self.tl0 = Timeline(self.store, {}, log["calls"], log["ops"])
 
@@ -397,6 +408,20 @@ class Judge:
                     return True
         return False
 
+    # -- coverage only: lengths of the keys the most recent completed compaction wrote into the snapshot
+    def snapshot_key_lengths(self, tl, nc):
+        key = ("snaplens", nc)
+        if key in self._memo:
+            return self._memo[key]
+        cur, snap = {}, set()
+        for c in tl.calls[:nc]:
+            cur = Kv.apply(cur, c)
+            s_, e_ = c["ops"]
+            if any(o["k"] == "r" for o in tl.ops[s_:e_]):
+                snap = {keylen(k) for k in cur}
+        self._memo[key] = snap
+        return snap
+
     # -- one observation line
     def line(self, ln):
         lvl = ln["lvl"]
@@ -414,6 +439,10 @@ class Judge:
             nc, infl, cls = tl.position(k, b, bool(ln.get("torn")))
             exact = tl.states[nc]
             lineage = cls
+            if self.store == "kv" and self.log.get("sizes"):
+                for n in self.snapshot_key_lengths(tl, nc):
+                    if n in (1, 255, 256, 65534, 65535):
+                        self.o(f"kv_images_with_{n}_byte_key_in_snapshot")
             if self.store == "kv" and R is not None and R != T0_MS:
                 lineage = cls + "@" + self.time_class(tl, nc, infl, exact, R)
                 if self.expiry_change_after_snapshot(tl, nc, exact, R):
@@ -506,7 +535,10 @@ class Judge:
         if not cont:
             return
         ctl = Timeline("kv", base, cont["calls"], cont["ops"], tl.hist_vals, tl.all_vals)
-        threw = [c for c in cont["calls"] if c.get("threw")]
+        threw = [c for c in cont["calls"] if c.get("threw") and c["kind"] != "set-oversize"]
+        for c in cont["calls"]:
+            if c["kind"] == "set-oversize":
+                self.o("kv_oversize_key_refused" if c.get("threw") else "kv_oversize_key_accepted")
         for c in threw:
             self.viol(pre + lineage + ":cont-op-threw", f"{c['kind']} on the recovered store threw: {c['err'][:160]}", dict(info, call=c["kind"]))
         if threw:
@@ -648,8 +680,17 @@ def judge_files(log_path, obs_path, final=False):
     with open(log_path) as fh:
         log = json.load(fh)
     J = Judge(log, final=final)
-    if any(c.get("threw") for c in log["calls"]):
-        bad = [c for c in log["calls"] if c.get("threw")][0]
+    for c in log["calls"]:
+        if c["kind"] == "set-oversize":
+            J.o("kv_oversize_key_refused" if c.get("threw") else "kv_oversize_key_accepted")
+    for c in log["calls"]:
+        if c.get("threw") and c["kind"] == "open" and c["i"] > 0:
+            # the recorded history itself could not reopen its store after a clean close
+            J.viol(f"C11:{log['store']}:clean-close:reopen-failed",
+                   f"reopening after a clean close failed in the recorded history (call {c['i']}): {c['err'][:200]}",
+                   dict(k=c["ops"][0], b=0, call=c["i"]))
+    if any(c.get("threw") and c["kind"] not in ("set-oversize", "open") for c in log["calls"]):
+        bad = [c for c in log["calls"] if c.get("threw") and c["kind"] not in ("set-oversize", "open")][0]
         J.out.append(dict(t="inconclusive",
                           what=f"recorded history seed={log['seed']} hist={log['hist']}: call {bad['i']} ({bad['kind']}) threw "
                                f"'{bad['err'][:120]}' - no reference outcome"))
